@@ -94,8 +94,8 @@ def run_case(case, ctx):
         with np.errstate(all='ignore'):
             direct = np.asarray(f(np.asarray(res['x'])))        # the library hands np.asarray(x) to f
         ctx.count('n0_bit_identity_asserted')
-        if np.asarray(val).tobytes() != direct.astype(val.dtype).tobytes() and not (
-                np.all(np.isnan(val)) and np.all(np.isnan(direct))):
+        # exact equality of values (signed zeros compare equal: the value passes through a length-1 convolution)
+        if not np.array_equal(np.asarray(val), direct.astype(val.dtype), equal_nan=True):
             ctx.reject('n0_is_not_f_of_x', observed=val, expected=direct, detail=dict(program=prog))
         else:
             ctx.nontrivial(('n0', prog, method))
